@@ -12,6 +12,9 @@ from .types import (BOOL, INT, NONE, REAL, TDict, TFun, TList, TMap, TObj, TOpt,
                     opt_is_none, opt_none, opt_some, opt_val, parse_type, set_card, set_mem, sort_of, tuple_get)
 
 
+_STRLITS: dict = {}  # string literal -> index (per process; names are only used inside one query)
+
+
 class Unsupported(Exception):
     pass
 
@@ -162,7 +165,18 @@ class Eval:
             fr2 = Fraction(repr(v))  # decimal literal as written (A2: floats are reals)
             return V(REAL, z3.RealVal(str(fr2)))
         if isinstance(v, str):
-            return self.ex.new_sym(TU("opaque"), "str", self.st)  # strings are not interpreted
+            # a string literal is an interned constant of the opaque sort: equal literals are the same constant,
+            # different literals are different values (strid is injective on literals); nothing else about
+            # strings is interpreted
+            t = TU("opaque")
+            if not getattr(self.ex.spec, "str_literals", False):
+                return self.ex.new_sym(t, "str", self.st)  # default: strings are not interpreted at all
+            k = _STRLITS.setdefault(v, len(_STRLITS))
+            c = z3.Const("strlit!%d" % k, sort_of(t))
+            fact = z3.Function("strid", sort_of(t), z3.IntSort())(c) == k
+            if not any(fact.eq(h) for h in self.st.pc[-60:]):
+                self.st.pc.append(fact)
+            return V(t, c)
         raise Unsupported(f"constant {v!r}")
 
     def e_Name(self, n):
